@@ -85,6 +85,10 @@ def wrap(v, t):
     if t in S16:
         v %= 65536
         return v - 65536 if v >= 32768 else v
+    if t == 'float':
+        # an integer-coded value forced through single precision keeps 24 significant bits
+        import struct
+        return int(struct.unpack('f', struct.pack('f', float(v)))[0])
     return v
 
 
